@@ -1,0 +1,16 @@
+//go:build verif
+
+package fstree
+
+import oid "github.com/nspcc-dev/neofs-sdk-go/object/id"
+
+// VerifUseGenericWriter makes the tree write through the portable writer
+// (the one used when the O_TMPFILE writer is not available).
+func (t *FSTree) VerifUseGenericWriter() {
+	t.writer = newGenericWriter(t.Permissions, t.noSync)
+}
+
+// VerifTreePath returns the file path of an address.
+func (t *FSTree) VerifTreePath(addr oid.Address) string {
+	return t.treePath(addr)
+}
